@@ -1,6 +1,9 @@
 #!/usr/bin/env python3
 """Shared plumbing: build things, run the harness (real code) and the Lean driver (model + oracles) on cases."""
-import json, os, subprocess, sys, time, concurrent.futures as cf
+import json, os, subprocess, sys, time, threading, concurrent.futures as cf
+
+sys.setrecursionlimit(200000)       # deeply nested ASTs (json, alpha are recursive)
+threading.stack_size(512 * 1024 * 1024)
 
 VERIF = os.path.dirname(os.path.dirname(os.path.abspath(__file__)))
 sys.path.insert(0, os.path.join(VERIF, "tools"))
